@@ -50,6 +50,7 @@ type vStoreSys struct {
 	compacts int
 	nBg      int // Compact / Tick operations used (bounded in c09 mode)
 	nRemOps  int
+	nBad     int               // refused writes used (bounded in c09 mode)
 	nFault   int               // flushes with an injected file-system fault (c09 mode, at most one per history)
 	segNames map[string]string // every segment file ever created -> content hash when completed
 	logSeen  int
@@ -79,6 +80,7 @@ func (s *vStoreSys) Reset() {
 	s.compacts = 0
 	s.nBg = 0
 	s.nRemOps = 0
+	s.nBad = 0
 	s.nFault = 0
 	s.segNames = map[string]string{}
 	s.logSeen = 0
@@ -161,6 +163,18 @@ func (s *vStoreSys) Enabled() []vOp {
 			sort.Ints(ids)
 			for _, id := range ids {
 				ops = append(ops, vOp{K: "Remove", A: id})
+			}
+		}
+		if s.nBad < 1 {
+			// one refused write per history, aimed at any live id (see the c08 alphabet)
+			ids := []int{}
+			for id := range s.live {
+				ids = append(ids, int(id))
+			}
+			sort.Ints(ids)
+			if len(ids) > 0 && s.session == 1 && s.maxSess > 3 {
+				// thorough tier only (the quick space is at its budget)
+				ops = append(ops, vOp{K: "BadAdd", A: ids[0]})
 			}
 		}
 		if s.nBg < 2 {
@@ -342,6 +356,7 @@ func (s *vStoreSys) Apply(op vOp, hist []vOp, check bool) {
 		}
 	case "BadAdd":
 		var err error
+		s.nBad++
 		s.env.do(func() {
 			err = s.st.AddWithID(uint32(op.A), []float32{1, 0, 0}, "refused", map[string]interface{}{"s": "x"})
 		})
@@ -614,7 +629,7 @@ func (s *vStoreSys) keyNow() string {
 		d := s.live[uint32(id)]
 		fmt.Fprintf(&sb, "%d=%d/%v/%v/%v;", id, d.doc, d.durable, s.decodes() > d.decodesAt, s.compacts > d.compactAt)
 	}
-	fmt.Fprintf(&sb, "rem%v n%d sess%d bg%d ro%d fl%d", vSetStr(s.removed), s.nAdd, s.session, s.nBg, s.nRemOps, s.nFault)
+	fmt.Fprintf(&sb, "rem%v n%d sess%d bg%d ro%d fl%d bad%d", vSetStr(s.removed), s.nAdd, s.session, s.nBg, s.nRemOps, s.nFault, s.nBad)
 	return sb.String()
 }
 
